@@ -103,5 +103,12 @@ C18NmS == {C18QtA, C18QtB, I("a/", "n0")}
 C18NmP == {I("a/", "w"), I("a/", "n0")}
 C18NmO == {C18QtA, C18QtB, C18QtC, I("a/", "x")}
 
+\* C18 with mid-sized tables: 4 slots, statements (quads, quoted triples) needing 5-7 entries
+C18Iri6 == Iris({"a/", "b#", "c/", "d#", "e/", "f#", ""}, {"x"})
+C18Qt6 == {<<"qt", I("a/", "x"), I("b#", "x"), I("c/", "x")>>, <<"qt", I("d#", "x"), I("e/", "x"), <<"qt", I("f#", "x"), I("a/", "x"), I("", "x")>>>>}
+C18S6 == C18Iri6 \cup C18Qt6
+C18O6 == C18Iri6 \cup C18Qt6
+C18Dt6 == {TypedLit("1", "d:a"), TypedLit("1", "d:b"), TypedLit("1", "d:c"), TypedLit("1", "d:d"), TypedLit("1", "d:e"), TypedLit("1", "d:f"), Bn("b1")}
+
 NsSmall == {<<"ex", "a/", "">>, <<"", "b#", "">>, <<"n", "", "x">>}
 =============================================================================
